@@ -194,7 +194,7 @@ class Stub:
     elif isinstance(st, _FUNCS):
       self.funcs.setdefault(st.name, []).append(st)
     elif isinstance(st, ast.ClassDef):
-      self.classes[st.name] = self._klass(st)
+      self._register(st.name, self._klass(st))
     elif isinstance(st, ast.Assign) and len(st.targets) == 1 and isinstance(st.targets[0], ast.Name):
       v = st.value
       name = st.targets[0].id
@@ -212,6 +212,16 @@ class Stub:
       pass
     else:
       self.unmodelled.append(type(st).__name__)
+
+  def _register(self, qual, ci):
+    """Classes are addressable by dotted name (`Outer.Inner`); top-level ones by their name."""
+    ci.qual = qual
+    self.classes[qual] = ci
+    for n, sub in ci.nested.items():
+      self._register(qual + "." + n, sub)
+
+  def toplevel_classes(self):
+    return {q for q in self.classes if "." not in q}
 
   def _typevar(self, call):
     parts = [ast.unparse(call.args[0]) if call.args else "?"]
@@ -348,7 +358,22 @@ GROUND = {"int": ("1", ("n", "int")), "str": ("'s'", ("n", "str")), "float": ("1
           "object": ("1", ("n", "int")), "Any": ("1", ("n", "int")), "complex": ("1j", ("n", "complex"))}
 
 
-def ground_arg(t, typevars):
+def construct(stub, cname, ref, depth=0):
+  """Source text constructing an instance of stub class `cname` (dotted), or Skip."""
+  mro = stub.mro(cname)
+  if any("__new__" in stub.classes[c].methods for c in mro):
+    raise Skip("__new__ in the hierarchy")
+  init = stub.lookup_member(cname, "__init__")
+  if init is None:
+    args = ""
+  else:
+    if init[0] != "method" or len(init[2]) != 1:
+      raise Skip("__init__ is not a single method")
+    args, _ = call_args(stub, init[2][0], drop_first=True, ref=ref, depth=depth)
+  return f"{ref}.{cname}({args})"
+
+
+def ground_arg(t, typevars, stub=None, ref=None, depth=0):
   """(source text, type of that text) for a parameter of normalised type t, or Skip."""
   if t is None:
     return GROUND["int"]
@@ -360,16 +385,18 @@ def ground_arg(t, typevars):
       if len(tv) == 1:          # unconstrained, unbounded
         return GROUND["int"]
       raise Skip("constrained or bounded TypeVar parameter")
+    if stub is not None and ref is not None and t[1] in stub.classes and depth < 2:
+      return construct(stub, t[1], ref, depth + 1), t
     raise Skip("parameter of type " + t[1])
   if t[0] == "u":
     for m in t[1]:
       try:
-        return ground_arg(m, typevars)
+        return ground_arg(m, typevars, stub, ref, depth)
       except Skip:
         continue
     raise Skip("no member of the union is ground-constructible")
   if t[0] == "g" and t[1] in ("list", "set", "frozenset") and len(t[2]) == 1:
-    src, ty = ground_arg(t[2][0], typevars)
+    src, ty = ground_arg(t[2][0], typevars, stub, ref, depth)
     if t[2][0][0] == "n" and t[2][0][1] in typevars:
       raise Skip("TypeVar inside a container")
     mk = {"list": f"[{src}]", "set": "{" + src + "}", "frozenset": f"frozenset([{src}])"}[t[1]]
@@ -377,7 +404,7 @@ def ground_arg(t, typevars):
   raise Skip("parameter of type " + show(t))
 
 
-def call_args(stub, fn, drop_first):
+def call_args(stub, fn, drop_first, ref=None, depth=0):
   """Source text of ground arguments satisfying the required parameters of `fn`.
 
   Returns (args_text, {typevar: bound type}) or raises Skip.
@@ -393,7 +420,7 @@ def call_args(stub, fn, drop_first):
   for kind, name, t, has_default in params:
     if kind in ("var", "kw") or has_default:
       continue
-    src, ty = ground_arg(t, stub.typevars)
+    src, ty = ground_arg(t, stub.typevars, stub, ref, depth)
     if t is not None and t[0] == "n" and t[1] in stub.typevars:
       if t[1] in binding and binding[t[1]] != ty:
         raise Skip("TypeVar bound twice")
@@ -419,3 +446,19 @@ def result_type(stub, fn, binding, self_type=None, self_tv=None):
     if ret[1] in binding:
       return binding[ret[1]]
   raise Skip("return type mentions a TypeVar that is not trivially bound")
+
+
+def element_probe(t):
+  """(subscript source, element type) for reading one element of a container-typed value."""
+  if t is None or t[0] != "g":
+    raise Skip("not a container")
+  if "nothing" in names_in(t):
+    raise Skip("empty container type")
+  h, a = t[1], t[2]
+  if h == "list" and len(a) == 1:
+    return "[0]", a[0]
+  if h == "dict" and len(a) == 2 and a[0] in (("n", "str"), ("n", "int")):
+    return ("['k']" if a[0] == ("n", "str") else "[0]"), a[1]
+  if h == "tuple" and a and all(x != ("e",) for x in a):
+    return f"[{len(a) - 1}]", a[-1]
+  raise Skip("container shape not probed")
